@@ -70,6 +70,118 @@ theorem poolSize_le_pool (P : Params) {b r : Nat} (h : poolSize P b = some r) : 
         · exact (sub_some h).2.2 ▸ Nat.sub_le _ _
         · cases h; exact Nat.le_refl _
 
+/-! ## the horizon of the schedule -/
+
+theorem firstFalse_below (p : Nat → Bool) : ∀ (fuel y z : Nat), y ≤ z → z < firstFalse p fuel y → p z = true
+  | 0, y, z, h1, h2 => by simp [firstFalse] at h2; omega
+  | fuel + 1, y, z, h1, h2 => by
+    unfold firstFalse at h2
+    by_cases hp : p y = true
+    · rw [if_pos hp] at h2
+      by_cases hz : z = y
+      · subst hz; exact hp
+      · exact firstFalse_below p fuel (y + 1) z (by omega) h2
+    · rw [if_neg hp] at h2; omega
+
+theorem firstFalse_le (p : Nat → Bool) : ∀ (fuel y : Nat), firstFalse p fuel y ≤ y + fuel
+  | 0, y => by simp [firstFalse]
+  | fuel + 1, y => by
+    unfold firstFalse
+    split
+    · have := firstFalse_le p fuel (y + 1); omega
+    · omega
+
+theorem firstFalse_stop (p : Nat → Bool) : ∀ (fuel y : Nat), firstFalse p fuel y < y + fuel →
+    p (firstFalse p fuel y) = false
+  | 0, y, h => by simp [firstFalse] at h
+  | fuel + 1, y, h => by
+    unfold firstFalse at h ⊢
+    by_cases hp : p y = true
+    · rw [if_pos hp] at h ⊢
+      exact firstFalse_stop p fuel (y + 1) (by omega)
+    · rw [if_neg hp]; simpa using hp
+
+theorem posBatchB_iff (P : Params) (b : Nat) : posBatchB P b = true ↔ PosBatch P b := by
+  unfold posBatchB PosBatch
+  cases h : mintBatchSize P b with
+  | none => simp
+  | some x => simp
+
+theorem mintBatchSize_year (P : Params) (hd : 0 < P.days) (b : Nat) :
+    mintBatchSize P b = mintBatchSize P (b / P.days * P.days) := by
+  unfold mintBatchSize
+  rw [Nat.mul_div_cancel _ hd]
+
+theorem posBatch_down (P : Params) {b b' : Nat} (h : b ≤ b') (hb' : PosBatch P b') : PosBatch P b := by
+  obtain ⟨x', hx', hm'⟩ := hb'
+  have hs := mintBatchSize_some hm'
+  have hle : b / P.days ≤ b' / P.days := Nat.div_le_div_right h
+  have hdef : (mintBatchSize P b).isSome := by
+    unfold mintBatchSize at hm' ⊢
+    simp only at hm' ⊢
+    rw [if_neg (by omega)]
+    rw [if_neg (by omega)] at hm'
+    cases hq' : poolAfter P (b' / P.days) P.pool with
+    | none => rw [hq'] at hm'; cases hm'
+    | some q' =>
+      have hpre := poolAfter_prefix (P := P) (p := P.pool) hle (by rw [hq']; rfl)
+      cases hq : poolAfter P (b / P.days) P.pool with
+      | none => rw [hq] at hpre; cases hpre
+      | some q =>
+        simp only [div]
+        rw [if_neg (by have := hs.2.2; omega)]
+        rfl
+  cases hm : mintBatchSize P b with
+  | none => rw [hm] at hdef; cases hdef
+  | some x => exact ⟨x, Nat.lt_of_lt_of_le hx' (batch_antitone P h hm hm'), hm⟩
+
+/-- Exactly the batches of the years below the horizon are defined and positive. -/
+theorem posBatch_iff_below_horizon (P : Params) (hd : 0 < P.days) (b : Nat) :
+    PosBatch P b ↔ b / P.days < horizonYear P := by
+  let p : Nat → Bool := fun y => posBatchB P (y * P.days)
+  have hH : p (horizonYear P) = false := by
+    by_cases hlt : horizonYear P < 0 + (P.maxYears + 1)
+    · exact firstFalse_stop p (P.maxYears + 1) 0 hlt
+    · have hle : horizonYear P ≤ 0 + (P.maxYears + 1) := firstFalse_le p (P.maxYears + 1) 0
+      have heq : horizonYear P = P.maxYears + 1 := by omega
+      show posBatchB P (horizonYear P * P.days) = false
+      rw [heq]
+      unfold posBatchB mintBatchSize
+      simp only
+      rw [Nat.mul_div_cancel _ hd, if_pos (by omega)]
+  constructor
+  · intro hb
+    apply Decidable.byContradiction
+    intro hge
+    have hge : horizonYear P ≤ b / P.days := by omega
+    have h1 : horizonYear P * P.days ≤ b := by
+      calc horizonYear P * P.days ≤ b / P.days * P.days := Nat.mul_le_mul_right _ hge
+        _ ≤ b := Nat.div_mul_le_self b P.days
+    have := (posBatchB_iff P _).mpr (posBatch_down P h1 hb)
+    rw [show posBatchB P (horizonYear P * P.days) = p (horizonYear P) from rfl, hH] at this
+    cases this
+  · intro hlt
+    have := firstFalse_below p (P.maxYears + 1) 0 (b / P.days) (Nat.zero_le _) hlt
+    have := (posBatchB_iff P _).mp this
+    unfold PosBatch at this ⊢
+    rwa [← mintBatchSize_year P hd b] at this
+
+/-- A multi-batch mint is defined exactly for `old < batch` with `batch` below the horizon. -/
+theorem multi_defined_iff (P : Params) (hd : 0 < P.days) (old b : Nat) :
+    (mintMulti P old b).isSome = true ↔ old < b ∧ b / P.days < horizonYear P := by
+  constructor
+  · intro h
+    cases hs : mintMulti P old b with
+    | none => rw [hs] at h; cases h
+    | some s =>
+      obtain ⟨h1, h2, _⟩ := (multi_is_sum P old b s).mp hs
+      exact ⟨h1, (posBatch_iff_below_horizon P hd b).mp (h2 b h1 (Nat.le_refl _))⟩
+  · rintro ⟨h1, h2⟩
+    have hb := (posBatch_iff_below_horizon P hd b).mpr h2
+    have := (multi_is_sum P old b (sumFrom (batchVal P) (old + 1) (b - old))).mpr
+      ⟨h1, fun i _ hi => posBatch_down P hi hb, rfl⟩
+    rw [this]; rfl
+
 /-! ## distribution -/
 
 /-- The shares of the work based distribution never sum to more than the amount distributed. -/
@@ -246,6 +358,9 @@ theorem mint_window (P : Params) {epoch ts lb la b a : Nat} {vo : Bool}
 example : (mintBatchSize params 1707).isSome = true := by decide
 example : (mintMulti params 1706 1709).isSome = true := by decide
 example : (poolSize params 1707).isSome = true := by decide
+example : PosBatch params 1707 := (posBatchB_iff _ _).mp (by decide)
+/- the value of `horizonYear params` (222 for the current constants: batch 81030, year 2241) is
+   printed by the model driver and compared with a scan of the real code (`horizon` op). -/
 /-- seven nodes with different works: the model returns shares, and builds a transaction -/
 example : ∃ s, distributeByWorks [(10, 100), (20, 300), (5, 50), (0, 0), (40, 900), (11, 120), (9, 80)] 4493835616 5
     = .ok s := ⟨_, rfl⟩
